@@ -30,8 +30,9 @@ fut = lambda a, i: {"k": "fut", "a": a, "i": i}
 class Gen:
     """random structured host programs over a few arrays and qubits"""
 
-    def __init__(self, rng: random.Random, depth_max=3, allow_qubits=True):
+    def __init__(self, rng: random.Random, depth_max=3, allow_qubits=True, bounded=False):
         self.rng = rng
+        self.bounded = bounded          # long histories: keep values small (TLC integers are 32-bit)
         self.depth_max = depth_max
         self.allow_qubits = allow_qubits
         self.na = self.nq = self.nf = 0
@@ -93,7 +94,10 @@ class Gen:
             return [self.new_array()]
         if p < 0.3:
             mod = r.choice([-1, -1, 2, 3, 5])
-            return [{"s": "add", "t": self.loc(loops), "o": self.val(loops), "mod": mod}]
+            o = self.val(loops)
+            if self.bounded and (o["k"] != "c" or loops):
+                mod = r.choice([5, 7, 11])
+            return [{"s": "add", "t": self.loc(loops), "o": o, "mod": mod}]
         if p < 0.5 and depth < self.depth_max:
             cmp = r.choice(["eq", "ne", "lt", "ge", "ez", "nz"])
             a = self.loc(loops) if r.random() < 0.8 or not loops else lv(r.choice(loops)[0])
@@ -118,7 +122,7 @@ class Gen:
             return self.qubit_block(loops, depth)
         if p < 0.9 and depth < self.depth_max and self.allow_qubits:
             return self.until_block(loops, depth)
-        return [{"s": "add", "t": self.loc(loops), "o": c(1), "mod": -1}]
+        return [{"s": "add", "t": self.loc(loops), "o": c(1), "mod": 13 if self.bounded else -1}]
 
     def qubit_block(self, loops, depth):
         """allocate, a few gates, measure into some location (everything inside the current body)"""
@@ -370,23 +374,52 @@ def skeleton(hist):
     return sk(hist)
 
 
+def _test_batch(prop, cands, clause, tmp, validate_fn):
+    """indices (0-based) of the candidates that still fail with the same clause"""
+    if not cands:
+        return []
+    if len(cands) > 8:
+        with ProcessPoolExecutor(max_workers=C.ncpu()) as pool:
+            rows = list(pool.map(_run_case, [(i + 1, cnd, prop) for i, cnd in enumerate(cands)], chunksize=4))
+    else:
+        rows = [_run_case((i + 1, cnd, prop)) for i, cnd in enumerate(cands)]
+    good = [r for r in rows if not r["err"]]
+    if not good:
+        return []
+    res = validate_fn(prop, good, tmp)
+    return sorted({v[2] - 1 for v in res.verdicts if v[1] == clause})
+
+
 def shrink(prop, case, clause, tmp, validate_fn, budget=10):
-    """1-minimal history with the same failing clause (or the original if shrinking stalls)"""
+    """delta debugging: first remove chunks of top-level items (ddmin), then single
+    simplification steps at any depth; returns a small history with the same failing clause"""
     cur = case
+    # phase 1: chunks of the top level
+    n = 2
+    while len(cur["history"]) > 6 and n <= len(cur["history"]):
+        h = cur["history"]
+        size = max(1, len(h) // n)
+        cands = []
+        for k in range(0, len(h), size):
+            h2 = h[:k] + h[k + size:]
+            if any(s["s"] == "flush" for s in h2):
+                cands.append({"history": h2, "meas": cur["meas"]})
+        failing = _test_batch(prop, cands, clause, tmp, validate_fn)
+        if failing:
+            cur = min((cands[i] for i in failing), key=lambda c_: len(json.dumps(c_["history"])))
+            n = max(2, n - 1)
+        else:
+            if size == 1:
+                break
+            n = min(len(h), n * 2)
+    # phase 2: single simplification steps at any depth
     for _ in range(budget):
         cands = [{"history": h, "meas": cur["meas"]} for h in _variants(cur["history"])]
         cands = [cnd for cnd in cands if any(s["s"] == "flush" for s in cnd["history"])]
-        if not cands:
-            break
-        rows = [_run_case((i + 1, cnd, prop)) for i, cnd in enumerate(cands)]
-        good = [r for r in rows if not r["err"]]
-        if not good:
-            break
-        res = validate_fn(prop, good, tmp)
-        failing = sorted({v[2] for v in res.verdicts if v[1] == clause}, key=lambda i: len(json.dumps(cands[i - 1]["history"])))
+        failing = _test_batch(prop, cands, clause, tmp, validate_fn)
         if not failing:
             break
-        cur = cands[failing[0] - 1]
+        cur = min((cands[i] for i in failing), key=lambda c_: len(json.dumps(c_["history"])))
     return {"history": _canon(cur["history"], cur["meas"]), "meas": cur["meas"]}
 
 
